@@ -470,6 +470,17 @@ def bounds(chk, P):
     bypass = r.path_exists(None, "exit", lambda q: False, avoid_blocks=gates, lift=0) if gates else [r.entry]
     chk.judge(bool(edges) and only_via(r, b, edges) and bypass is None, "BOUNDS", "setParameterLimits:whenever-allocated", "%s:%d" % (r.file, e["line"]),
               "the call is guarded only by `lower.size()` and that test is on every path to the exit")
+    # Optimizer::Optimizer(sys) chooses its algorithm from the system AS IT IS at construction (limits => LBFGSB rather than LBFGS, constraints => interior point):
+    # everything that configures asmSys must precede the construction of the Optimizer from it, otherwise an algorithm that never reads the limits may be chosen
+    ctors = [(bb, ii, ee) for bb, ii, ee in r.calls() if ee.get("ctor") and ee.get("fn") == "SimTK::Optimizer::Optimizer" and bool(sx_find(ee["x"], lambda y: y[0] == "mem" and y[2] == A + "::asmSys"))]
+    if chk.shape(len(ctors) == 1, "BOUNDS", "optimizer-constructed-from-asmSys", r.loc, "%d constructions of an Optimizer from *asmSys" % len(ctors)):
+        cb, ci, ce = ctors[0]
+        conf = [(bb, ii, ee) for bb, ii, ee in r.calls() if field_of(call_obj(ee)) == A + "::asmSys" and re.search(r"OptimizerSystem::set\w+$", str(ee.get("fn", "")))]
+        chk.shape(len(conf) >= 2, "BOUNDS", "asmSys-configuration-calls", r.loc, "configuration calls on asmSys: %s" % sorted({x[2]["fn"].split("::")[-1] for x in conf}))
+        for bb, ii, ee in conf:
+            late = r.path_exists((cb, ci), lambda q, ee=ee: q is ee, lambda q: False, lift=0)
+            chk.judge(late is None, "BOUNDS", "%s:before-the-Optimizer-is-constructed" % ee["fn"].split("::")[-1], "%s:%d" % (r.file, ee["line"]),
+                      "asmSys is configured after `new Optimizer(*asmSys)` chose its algorithm from it (without limits / constraints visible, an algorithm that ignores them may be chosen)", late)
     # lower[fx] = r[0]; upper[fx] = r[1]
     for fld, k in ((A + "::lower", "0"), (A + "::upper", "1")):
         ws = [(bb, ii, ee) for bb, ii, ee in r.events(lambda q: q["k"] == "assign" and field_of(q["lhs"]) == fld and q["lhs"][0] in ("opc", "idx"))]
@@ -669,6 +680,10 @@ MUTATIONS = [
          new="    {   ++nEvalObjective;\n\n        if (new_parameters)\n            setInternalStateFromFreeQs(parameters);\n        assembler.internalState.updQ() *= 1;\n", expect="LOCKED:"),
     dict(name="upper and lower limits swapped", arm=True, file=_F,
          old="        asmSys->setParameterLimits(lower, upper);", new="        asmSys->setParameterLimits(upper, lower);", expect="BOUNDS:setParameterLimits(lower,upper)"),
+    dict(name="seeded (sub-agent): limits given to the optimizer system after the Optimizer chose its algorithm", arm=True, file=_F,
+         old="    if (lower.size())\n        asmSys->setParameterLimits(lower, upper);\n\n\n    // Optimizer will choose LBFGS for unconstrained (or just bounds-constrained)\n    // problems, InteriorPoint for constrained problems.\n    optimizer = new Optimizer(*asmSys\n        //,InteriorPoint\n        //,LBFGS\n        //,LBFGSB\n        );\n",
+         new="    optimizer = new Optimizer(*asmSys\n        );\n    if (lower.size())\n        asmSys->setParameterLimits(lower, upper);\n",
+         expect="BOUNDS:setParameterLimits:before-the-Optimizer-is-constructed"),
     dict(name="upper bound filled from range[0]", file=_F, old="            upper[fx] = r[1];", new="            upper[fx] = r[0];", expect="BOUNDS:upper[fx]=range[1]"),
     dict(name="infinite-weight test replaced by >= 1", file=_F,
          old="        if (weights[acx] == Infinity) {\n            const int n", new="        if (weights[acx] >= 1) {\n            const int n", expect="ERRLIST:"),
